@@ -353,10 +353,12 @@ func (fox *Router) NewRoute(pattern string, handler HandlerFunc, opts ...RouteOp
 	}
 
 	for _, opt := range opts {
+		verifPoint("newroute.opt")
 		if err = opt.applyRoute(sealedOption{route: rte}); err != nil {
 			return nil, err
 		}
 	}
+	verifPoint("newroute.chain")
 	rte.hself, rte.hall = applyRouteMiddleware(rte.mws, handler)
 
 	return rte, nil
